@@ -66,6 +66,8 @@ type statLine struct {
 	S  interface{} `json:"s,omitempty"`
 	K  string      `json:"k,omitempty"` // known-finding key hit
 	X  int         `json:"x,omitempty"` // excluded-by-construction count
+	N  int64       `json:"cnt,omitempty"` // this line stands for N evaluations (bulk enumerations)
+	DN int64       `json:"dn,omitempty"`  // ... of which DN are distinct and non-trivial
 }
 
 var statsMu sync.Mutex
@@ -110,7 +112,7 @@ func recordX(l statLine, sample func() interface{}) {
 	if statsW == nil {
 		return
 	}
-	if sample != nil && l.NT && sampleBudget[l.P] < 4 {
+	if sample != nil && (l.NT || l.N > 0) && sampleBudget[l.P] < 4 {
 		sampleBudget[l.P]++
 		l.S = sample()
 	}
